@@ -287,6 +287,12 @@ impl DeclareCommand {
             .env_mut()
             .get_mut_using_policy(name.as_str(), lookup)
         {
+            // A readonly variable rejects the assignment; don't leave the declaration
+            // half applied (attributes changed, value refused).
+            if initial_value.is_some() && var.is_readonly() {
+                return Err(brush_core::ErrorKind::ReadonlyVariable.into());
+            }
+
             if self.make_associative_array.is_some() {
                 var.convert_to_associative_array()?;
             }
